@@ -130,7 +130,10 @@ contract(Contract(
     setup=self_setup,
     ensures={"rule": "result == old(self._prefix) + '* * *\\n'",
              "prefix_consumed": "self._prefix == self._second_prefix and self._second_prefix == old(self._second_prefix)",
-             "flags": "not self._skip_next_blank_line"},
+             "flags": "not self._skip_next_blank_line",
+             # C10: a rule ends with its own line only -- the item after it gets its separator (no stale suppression either)
+             "frame": Clause("not self._suppress_item_break and self._current_list_tight == old(self._current_list_tight)",
+                             props=["C10", "C01"])},
     canaries=[('result = f"{self._prefix}* * *\\n"', 'result = f"* * *\\n"', None, ["post[rule"])],
 ))
 
@@ -142,7 +145,9 @@ contract(Contract(
     setup=self_setup,
     calls={"HtmlEl.body": Callee("attr", ret="str")},
     ensures={"verbatim": "result == old(self._prefix) + element.body",
-             "prefix_consumed": "self._prefix == self._second_prefix and self._second_prefix == old(self._second_prefix)"},
+             "prefix_consumed": "self._prefix == self._second_prefix and self._second_prefix == old(self._second_prefix)",
+             "frame": Clause("not self._suppress_item_break and self._current_list_tight == old(self._current_list_tight)",
+                             props=["C10", "C01"])},
     canaries=[('result = f"{self._prefix}{element.body}"', 'result = f"{self._prefix}{element.body.strip()}"', None, ["post[verbatim"])],
 ))
 
